@@ -128,7 +128,8 @@ namespace Pistache::Http::Experimental
             writeCookies(streamBuf, request.cookies());
             writeHeaders(streamBuf, request.headers());
 
-            writeHeader<Http::Header::UserAgent>(streamBuf, UA);
+            if (!request.headers().has<Http::Header::UserAgent>())
+                writeHeader<Http::Header::UserAgent>(streamBuf, UA);
             writeHeader<Http::Header::Host>(streamBuf, std::string(host));
             if (!body.empty())
             {
@@ -1065,7 +1066,6 @@ namespace Pistache::Http::Experimental
     Async::Promise<Response> Client::doRequest(Http::Request request)
     {
         // request.headers_.add<Header::Connection>(ConnectionControl::KeepAlive);
-        request.headers().remove<Header::UserAgent>();
         auto resourceData = request.resource();
 
         auto resource = splitUrl(resourceData);
